@@ -70,6 +70,11 @@ func main() {
 		os.Exit(1)
 	}
 
+	if scanner.ErrorCount > 0 {
+		fmt.Printf("Error: %d lexical error(s) in %s (unterminated comment, string or character literal, illegal escape or character)\n", scanner.ErrorCount, cfg.SourceFile())
+		os.Exit(1)
+	}
+
 	g := grammar.(*ast.Grammar)
 
 	gSymbols := symbols.NewSymbols(g)
